@@ -91,6 +91,8 @@ def ann_type(prog: Program, ann: ast.expr | None, fi: FuncInfo) -> frozenset:
                     return frozenset({K})
                 if p.name in ("BackoffContext", "Classification") or p.is_dataclass:
                     return frozenset({("dc", p.qual)})
+                if inst_fields(prog, p) is not None:
+                    return frozenset({("inst", p.qual)})  # a plain class of the library whose fields are set in __init__
                 return frozenset({O})
             if k == "assign":
                 m2, val = p
@@ -99,6 +101,24 @@ def ann_type(prog: Program, ann: ast.expr | None, fi: FuncInfo) -> frozenset:
                     return frozenset({C})
                 return ann_type(prog, val, fi)
     return ANY
+
+
+def inst_fields(prog: Program, ci: Any) -> dict | None:
+    """field -> annotation (or None) of a plain class of the library: every `self.f = ...` / `self.f: T = ...` of its
+    own `__init__`; None when the class customises attribute access or has no `__init__` of its own"""
+    init = ci.methods.get("__init__")
+    if init is None or any(m in ci.methods for m in ("__getattr__", "__getattribute__", "__setattr__")) or len(prog.mro(ci)) > 1:
+        return None
+    sn = init.param_names()[0] if init.param_names() else None
+    out: dict = {}
+    for n in prog._own_nodes(init.node):
+        if isinstance(n, ast.AnnAssign) and isinstance(n.target, ast.Attribute) and isinstance(n.target.value, ast.Name) and n.target.value.id == sn:
+            out[n.target.attr] = n.annotation
+        elif isinstance(n, ast.Assign):
+            for t in n.targets:
+                if isinstance(t, ast.Attribute) and isinstance(t.value, ast.Name) and t.value.id == sn:
+                    out.setdefault(t.attr, None)
+    return out or None
 
 
 @dataclass
@@ -192,6 +212,13 @@ class MayRaise:
                         out |= ann_type(self.prog, ann, ci.methods.get("__init__") or self.fi)
                     elif meth is not None and meth.is_property:
                         out |= ann_type(self.prog, meth.node.returns, meth)
+                    else:
+                        out |= ANY
+                elif isinstance(a, tuple) and a[0] == "inst":
+                    ci = self.prog.classes[a[1]]
+                    flds = inst_fields(self.prog, ci) or {}
+                    if flds.get(t[2]) is not None:
+                        out |= ann_type(self.prog, flds[t[2]], ci.methods["__init__"])
                     else:
                         out |= ANY
                 elif a == X and t[2] == "args":
@@ -327,6 +354,14 @@ class MayRaise:
                     return p.annotation
         if t[0] == "sub":
             return self.elem_ann(t)
+        if t[0] == "attr":
+            # a field of a plain library class reached through an annotated field (`self._events._times`)
+            ba = self.term_ann(t[1])
+            if isinstance(ba, ast.Name):
+                k2, p2 = self.prog.lookup_name(ba.id, self.fi, self.fi.module)
+                if k2 == "class":
+                    flds = inst_fields(self.prog, p2) or {}
+                    return flds.get(t[2])
         return None
 
     def elem_ann(self, t: Any) -> ast.expr | None:
@@ -633,7 +668,7 @@ class MayRaise:
                 out.append(Obligation(node, show(t), ("KeyError",), "lookup by key"))
         elif k == "attr":
             bt = ty(t[1])
-            plain = all(isinstance(a, tuple) and a[0] == "dc" for a in bt) or t[1] in (("param", "self"),) or (bt <= {X} and t[2] in ("args", "__traceback__", "__class__")) or bt <= {K, DT, TD, RE}
+            plain = all(isinstance(a, tuple) and (a[0] == "dc" or (a[0] == "inst" and t[2] in (inst_fields(self.prog, self.prog.classes[a[1]]) or {}))) for a in bt) or t[1] in (("param", "self"),) or (bt <= {X} and t[2] in ("args", "__traceback__", "__class__")) or bt <= {K, DT, TD, RE}
             if t[1][0] in ("global",):
                 plain = True
             if t[2] == "__name__" and t[1][0] == "pure" and t[1][1] == "type":
@@ -712,7 +747,20 @@ class MayRaise:
                 if not (all(t <= NUM for t in tys) or all(t <= {S} for t in tys)):
                     out.append(Obligation(node, show(res), ("TypeError",), f"{name}() compares {[sorted(map(str, t)) for t in tys]}"))
             elif name == "len" and args:
-                if not ty(args[0]) <= SIZED:
+                def sized_inst(a: Any) -> bool:
+                    if not (isinstance(a, tuple) and a[0] == "inst"):
+                        return False
+                    ln = self.prog.classes[a[1]].methods.get("__len__")
+                    if ln is None:
+                        return False
+                    body = [b for b in ln.node.body if not (isinstance(b, ast.Expr) and isinstance(b.value, ast.Constant))]
+                    flds = inst_fields(self.prog, self.prog.classes[a[1]]) or {}
+                    # `return len(self.<field of a sized library type>)`
+                    return (len(body) == 1 and isinstance(body[0], ast.Return) and isinstance(body[0].value, ast.Call) and isinstance(body[0].value.func, ast.Name) and body[0].value.func.id == "len"
+                            and len(body[0].value.args) == 1 and isinstance(body[0].value.args[0], ast.Attribute) and flds.get(body[0].value.args[0].attr) is not None
+                            and ann_type(self.prog, flds[body[0].value.args[0].attr], ln) <= SIZED)
+
+                if not (ty(args[0]) <= SIZED or all(sized_inst(a) for a in ty(args[0]))):
                     out.append(Obligation(node, show(res), ("TypeError",), "len() of an unsized value"))
             elif name in STR_METHODS and recv is not None:
                 if not ty(recv) <= {S}:
